@@ -1010,3 +1010,9 @@ V("twin: project with the operands of meet exchanged", "C10", POINT, "        l 
 V("perpendicular to a plane from the last three coefficients", "C10", POINT, "        p = self.array[..., :-1]\n        p = PointCollection.from_array(np.append(p, np.zeros(p.shape[:-1] + (1,), dtype=p.dtype), axis=-1))",
   "        p = self.array[..., 1:]\n        p = PointCollection.from_array(np.append(p, np.zeros(p.shape[:-1] + (1,), dtype=p.dtype), axis=-1))", "E19.metric", "PlaneTensor.perpendicular")
 V("twin: perpendicular to a plane with the join written as a function call", "C10", POINT, "        return through.join(p)", "        return join(through, p)", "silent")
+
+
+# ------------------------------------------------------------------------------------------------ lines of 3-space from two points / two planes (E19.join)
+V("1-tensor branch joins with the first argument twice", "C01", POINT, "        result = TensorDiagram(*[(o, e) if covariant else (e, o) for o in args]).calculate()",
+  "        result = TensorDiagram(*[(o, e) if covariant else (e, o) for o in (args[0], *args[:-1])]).calculate()", "E19.join", "_join_meet_duality")
+V("twin: the line of two planes handed out in its other representation", "C01", POINT, "        return LineCollection.from_tensor(result).contravariant_tensor", "        return LineCollection.from_tensor(result).contravariant_tensor.copy()", "silent")
